@@ -58,6 +58,25 @@ where
         }
     }
 
+    /// Verification hook: construct a **Detector** from explicit gains and previous envelope frame.
+    #[cfg(rustaudio_dasp_verif)]
+    #[doc(hidden)]
+    pub fn verif_with_gains(detect: D, attack_gain: f32, release_gain: f32, last: D::Output) -> Self {
+        Detector {
+            last_env_frame: last,
+            attack_gain,
+            release_gain,
+            detect,
+        }
+    }
+
+    /// Verification hook: the (attack gain, release gain, previous envelope frame) state.
+    #[cfg(rustaudio_dasp_verif)]
+    #[doc(hidden)]
+    pub fn verif_state(&self) -> (f32, f32, D::Output) {
+        (self.attack_gain, self.release_gain, self.last_env_frame)
+    }
+
     /// Set the **Detector**'s attack time as a number of frames.
     pub fn set_attack_frames(&mut self, frames: f32) {
         self.attack_gain = calc_gain(frames);
